@@ -503,6 +503,24 @@ pub fn generate_opts(id: usize, r: &mut R, help_names: bool) -> Decl {
         }
     }
     let mut enums = std::mem::take(&mut g.enums);
+    // "command groups try their members in order": now and then a hidden member declared before a visible one answers to
+    // the same command name (the hidden member, being first, must win when the line is parsed; help and completion only
+    // know the visible one)
+    if grouped && g.r.chance(35) {
+        let hid: Vec<usize> = (0..roots.len()).filter(|i| roots[*i].hidden).collect();
+        let pairs: Vec<(usize, usize)> = hid.iter().flat_map(|h| (h + 1..roots.len()).filter(|v| !roots[*v].hidden && roots[*v].enum_id != "RAW").map(move |v| (*h, v))).collect();
+        if !pairs.is_empty() {
+            let (h, v) = pairs[g.r.below(pairs.len())];
+            let hname = {
+                let hv = &enums[&roots[h].enum_id].variants;
+                hv[g.r.below(hv.len())].name.clone()
+            };
+            let vv = &mut enums.get_mut(&roots[v].enum_id).unwrap().variants;
+            let k = g.r.below(vv.len());
+            vv[k].name = hname;
+            vv[k].explicit = true;
+        }
+    }
     let ids: Vec<String> = enums.keys().cloned().collect();
     for id in &ids {
         let lt = needs_lt(id, &enums);
